@@ -95,14 +95,14 @@ def run_case(chain, rcpts, hdkey, nth=1, block=None, sameobj=False):
 
     def _alarm(signum, frame):
         raise Runaway()
-    signal.signal(signal.SIGALRM, _alarm)
-    signal.setitimer(signal.ITIMER_REAL, 15.0)            # a policy chain that never ends (or grows without bound) is a verdict too
+    signal.signal(signal.SIGPROF, _alarm)
+    signal.setitimer(signal.ITIMER_PROF, 15.0)            # a policy chain that never ends (or grows without bound) is a verdict too
     try:
         return _run_case_body(st, q, nth, rcpts, block, hdkey)
     except Runaway:
         return [{'t': 'raised', 'cls': 'Runaway'}]
     finally:
-        signal.setitimer(signal.ITIMER_REAL, 0)
+        signal.setitimer(signal.ITIMER_PROF, 0)
 
 
 def _run_case_body(st, q, nth, rcpts, block, hdkey):
